@@ -19,6 +19,10 @@ impl<T> std::fmt::Debug for Receiver<T> { fn fmt(&self, f: &mut std::fmt::Format
 pub enum TrySendError<T> { Full(T), Disconnected(T) }
 #[derive(Debug)]
 pub enum TryRecvError { Empty, Disconnected }
+/// In the real crate `recv()` blocks while the channel is empty and a sender is alive. The shim
+/// is sequential: "would block" is the quiescent point of the consumer and is reported as Err.
+#[derive(Debug)]
+pub struct RecvError;
 
 fn mk<T>(cap: Option<usize>) -> (Sender<T>, Receiver<T>) {
     let i = Arc::new(Inner { q: [Cell::new(None), Cell::new(None), Cell::new(None)], len: Cell::new(0), cap });
@@ -47,7 +51,9 @@ impl<T> Receiver<T> {
         self.inner.len.set(n - 1);
         Ok(v)
     }
+    pub fn recv(&self) -> Result<T, RecvError> { self.try_recv().map_err(|_| RecvError) }
     pub fn is_empty(&self) -> bool { self.inner.len.get() == 0 }
+    pub fn len(&self) -> usize { self.inner.len.get() }
     pub fn iter(&self) -> Iter<'_, T> { Iter { r: self } }
 }
 pub struct Iter<'a, T> { r: &'a Receiver<T> }
